@@ -246,6 +246,11 @@ fn generate(args: &Args, seed: u64, thorough: bool, shard: usize, nshards: usize
     for _ in 0..nwit {
         witgen::wit_cases(&mut out, &mut r);
     }
+    // 4. `set_instantiation_argument` verdicts for a sample of WIT-derived exporter/importer pairs
+    let narg = if thorough { 600 } else { args.num("arg", 40) } / nshards;
+    for _ in 0..narg {
+        witgen::arg_case(&mut out, &mut r);
+    }
     out.finish();
 }
 
